@@ -177,7 +177,7 @@ def gen_calls(rng, v):
             elif kk < 0.4:
                 calls.append(("sanitize(value=%s)" % name, (lambda t, text=text: None if t == san.sanitize(text, ".", False, False, None) else "sanitize() returned %r, contract gives %r" % (t, san.sanitize(text, ".", False, False, None))), None))
             elif kk < 0.5:
-                calls.append(("sanitize(value=%s, preset='uint')" % name, (lambda t, text=text: None if t == san.uint(text) else "sanitize uint returned %r, contract gives %r" % (t, san.uint(text))), None))
+                calls.append(("sanitize(value=%s, preset='uint')" % name, (lambda t, text=text: None if t in san.uint_admissible(text) else "sanitize uint returned %r, contract admits %r" % (t, sorted(san.uint_admissible(text)))), None))
             else:
                 sep = rng.choice([".", "-", "_", "--", "-.", "::"])
                 lower = rng.choice([True, False])
